@@ -59,7 +59,7 @@ theorem C14_error_names_record (nr : Nat) {α : Type} :
 
 /-- UPDATE: the error is reported at the first failing record, the writer holding exactly the records before it -/
 theorem C14_update_first_error (q : SemQuery) (A B : Table) (jm : JoinMap) (hupd : q.isUpdate = true)
-    (hjm : ∀ js, q.join = some js → (jm.maxLen = maxWidth B ∧
+    (hjm : ∀ js, q.join = some js → (jm.maxLen = nullWidth js B ∧
         ∀ key, jm.get key = (partnersSpec js.rhs B key).map (fun p => (p.1, p.2.length, p.2))))
     (e : EngErr) (he : updateSpec q B A 0 0 = .error e) :
     ∃ st k pre, mainLoop q jm A 0 { chain := buildChain q {} } = .error (e, st, k + 1) ∧
